@@ -357,6 +357,12 @@ func (env *Env) convert(x Val, from, to types.Type) Val {
 	if x.Loc != nil && ts == "Ref" {
 		return x
 	}
+	if x.Loc != nil {
+		x = env.materialize(x)
+	}
+	if x.Clo != nil {
+		x = Val{T: env.closureTerm(x.Clo), S: "Fn"}
+	}
 	f := env.uf("conv_"+typeKey(from)+"_to_"+typeKey(to), []string{x.S}, ts)
 	e.note("conversion modelled as uninterpreted function: " + from.String() + " -> " + to.String())
 	return Val{T: fmt.Sprintf("(%s %s)", f, x.T), S: ts}
